@@ -16,6 +16,7 @@ import (
 	"fmt"
 	"math/rand/v2"
 	"os"
+	"runtime"
 	"strings"
 	"sync"
 	"sync/atomic"
@@ -47,6 +48,7 @@ type config struct {
 	VLogCache   int
 	MultiIndex  bool
 	WriteBuffer int
+	Faults      bool // transient write / fsync errors injected during the committer rounds
 }
 
 func (cf config) String() string {
@@ -118,6 +120,11 @@ type run struct {
 
 	acks, refused, conflicts atomic.Int64
 	timeouts                 atomic.Int64
+	committers               sync.Map // goroutine ids of the committer goroutines of the running round
+	faultsArmed              atomic.Bool
+	faultBudget              atomic.Int64
+	faultCalls               atomic.Uint64
+	faultsFired              atomic.Int64
 	keySeq                   atomic.Uint64
 	stats                    map[string]*atomic.Int64
 }
@@ -398,9 +405,54 @@ func (rn *run) sample() {
 }
 
 // concurrent phase: committers + maintenance + auditor until nOps commit attempts were made
+// fault decides whether one write / fsync of some appendable fails now: a transient I/O error (the next
+// attempt succeeds). Which call fails depends on the schedule; how many do is bounded per round.
+func (rn *run) fault(site string) error {
+	if !rn.faultsArmed.Load() {
+		return nil
+	}
+	// only writes / fsyncs issued by a committing goroutine itself (value-log, tx-log and commit-log work of
+	// its own Commit call): the failed commit is then simply not acknowledged. Faults under the indexer or
+	// the background syncer are not injected here (what they may leave behind is not C02's business).
+	if _, ok := rn.committers.Load(goid()); !ok {
+		return nil
+	}
+	n := rn.faultCalls.Add(1)
+	// a fixed sparse pattern over the call sequence (about 1 call in 40), at most 3 per round
+	if (n*2654435761)%40 != 7 {
+		return nil
+	}
+	if rn.faultBudget.Add(-1) < 0 {
+		return nil
+	}
+	rn.faultsFired.Add(1)
+	rn.c.Count("faults_injected/"+site, 1)
+	return errInjected
+}
+
+var errInjected = errors.New("c02: injected transient I/O error")
+
+func goid() uint64 {
+	var buf [64]byte
+	n := runtime.Stack(buf[:], false)
+	var id uint64
+	for _, c := range buf[10:n] {
+		if c < '0' || c > '9' {
+			break
+		}
+		id = id*10 + uint64(c-'0')
+	}
+	return id
+}
+
 func (rn *run) concurrentPhase(round int, nOps int) {
 	ctx, cancel := context.WithCancel(context.Background())
 	defer cancel()
+	if rn.cf.Faults {
+		rn.faultBudget.Store(3)
+		rn.faultsArmed.Store(true)
+		defer rn.faultsArmed.Store(false)
+	}
 	var wg sync.WaitGroup
 	var left atomic.Int64
 	left.Store(int64(nOps))
@@ -410,6 +462,9 @@ func (rn *run) concurrentPhase(round int, nOps int) {
 		wg.Add(1)
 		go func(g int) {
 			defer wg.Done()
+			id := goid()
+			rn.committers.Store(id, true)
+			defer rn.committers.Delete(id)
 			r := fw.NewRand(rn.c.Seed, fmt.Sprintf("c02/%s/round%d/committer%d", rn.cf.Name, round, g))
 			for left.Add(-1) >= 0 {
 				// generous per-operation limit: its firing decides nothing by itself, it only lets
@@ -858,6 +913,12 @@ func init() {
 				if rn := current.Load(); rn != nil {
 					rn.onNote(site, a, b, hh)
 				}
+			},
+			FaultFn: func(site string, _ uint64) error {
+				if rn := current.Load(); rn != nil {
+					return rn.fault(site)
+				}
+				return nil
 			}})
 		defer hook.Uninstall()
 		runConfig(c, cs.Cf, cs.Rounds, cs.Ops)
@@ -886,6 +947,7 @@ func Run(c *fw.Ctx) {
 	for i := 0; i < nconf; i++ {
 		cf := genConfig(r, i)
 		cf.Name = fmt.Sprintf("cfg%d", i)
+		cf.Faults = (i%4 == 1 || i%4 == 2) && os.Getenv("VERIF_C02_FAULTS") != "0"
 		b, _ := json.Marshal(caseSpec{Cf: cf, Rounds: c.N(3, 4), Ops: c.N(220, 1200)})
 		cases = append(cases, b)
 	}
